@@ -1,5 +1,5 @@
 """C09 - grouping and counting notes follow the documented rules (structural clauses)."""
-from ..rules import fwd, notes, records, grouping
+from ..rules import fwd, notes, records, grouping, baseline
 
 EXPLANATION = (
     "Static rule checking of group_notes and the counting functions: R-ENUM every dispatch chain on an enum option handles every "
@@ -47,10 +47,14 @@ def sweep(ctx):
 
 sweep.thorough_only = True
 
+def c_api(ctx):
+    baseline.surface(ctx, "C09: documented surface", modules=['simfile.notes.group', 'simfile.notes.count', 'simfile.notes'])
+
 CLAUSES = [
     ("C09.1", "option dispatch is total (R-ENUM)", c1),
     ("C09.2", "counting functions are the documented instantiations (R-FWD, R-TABLE, R-CLONE)", c2),
     ("C09.3", "nothing buffered is lost; the type filter precedes both branches (R-ORDER)", c3),
     ("C09.4", "a joined head keeps its fields (R-REBUILD)", c4),
     ("C09.sweep", "package-wide option forwarding and enum-dispatch census (thorough)", sweep),
+    ("C09.api", "public surface: signatures and defaults, constants, enumerations, blank templates, base classes as confirmed (R-API)", c_api),
 ]
